@@ -5,6 +5,11 @@ CONSTANTS Names = {"x"}
           CacheSize = 3
           Reader = "newest"
           Cleanup = "after"
+          MetaOrder = "after"
+          MetaNames = {".etag", ".last-modified", ".last-refresh"}
+          EtagName = ".etag"
+          LMName = ".last-modified"
+          ValFull <- TValFull
 CONSTRAINT TraceConstraint
 POSTCONDITION TracePost
 CHECK_DEADLOCK FALSE
